@@ -117,10 +117,37 @@ def case_sex(run, i):
             fn()
         except Exception as exc:
             run.violate("sex-workload", f"sex-call-raises-{type(exc).__name__}", f"{exc!r}", truth)
+    if i % 6 == 0:
+        # the `sex` sub-command on a written file: -y must reach the inference, the report must name this file and state the generated sex
+        import csv
+        import os
+        from skgenome import tabio
+        d = os.path.join(run.workdir, f"cli15_{run.shard}_{i}")
+        os.makedirs(d, exist_ok=True)
+        pin, pout = os.path.join(d, "Smp.cnr"), os.path.join(d, "sex.tsv")
+        with run.monitor_scope():
+            tabio.write(make_cna(cols, meta={"sample_id": "Smp"}), pin)
+        mon = "cli.sex[report]"
+        try:
+            a = K.parse_args(["sex", pin, "-o", pout] + (["-y"] if male_ref else []))
+            a.func(a)
+            with open(pout) as fh:
+                rows = list(csv.DictReader(fh, delimiter="\t"))
+            want = "Female" if female else "Male"
+            if len(rows) != 1 or os.path.basename(rows[0]["sample"]) != "Smp.cnr":
+                run.violate(mon, "sex-cli-report-rows", f"report rows {rows} for one input file Smp.cnr", truth)
+            elif rows[0]["sex"] != want:
+                run.violate(mon, "sex-cli-reports-wrong-sex", f"`sex{' -y' if male_ref else ''}` reports {rows[0]['sex']} for a generated {want.lower()} sample", truth)
+            else:
+                run.held(mon, f"cli-sex:{want}:{'maleref' if male_ref else 'femaleref'}")
+        except Exception as exc:
+            run.violate(mon, f"sex-cli-raises-{type(exc).__name__}", f"{exc!r}", truth)
+        import shutil
+        shutil.rmtree(d, ignore_errors=True)
     run.end_case(fp=rt.fingerprint([cols["log2"][:50], truth], 12), nontrivial=True, sample={"truth": truth, "n_bins": len(cols["log2"])} if i % 211 == 0 else None)
 
 
 WORKLOADS = {"center": (_n_center, case_center), "sex": (_n_sex, case_sex)}
-_Q = {"CopyNumArray.center_all|held": 1500, "CopyNumArray.guess_xx|held": 600, "CopyNumArray.compare_sex_chromosomes|held": 1200,
+_Q = {"cli.sex[report]|held": 40, "CopyNumArray.center_all|held": 1500, "CopyNumArray.guess_xx|held": 600, "CopyNumArray.compare_sex_chromosomes|held": 1200,
       "commands.do_sex|held": 600, "CopyNumArray.shift_xx|held": 1800, "CopyNumArray.expect_flat_log2|held": 1200}
 QUOTAS = {"quick": _Q, "thorough": _Q}
